@@ -42,12 +42,12 @@ fn template(pos: &str) -> &'static str {
     }
 }
 
-fn key_of(v: &str) -> PublicKey {
+pub fn key_of(v: &str) -> PublicKey {
     keys::keypair("PK", if v == "key_secp256r1" { "p256" } else { "ed" }).public()
 }
 
 /// (value as a builder term, the same value written as a Datalog literal)
-fn value(v: &str) -> (Term, String) {
+pub fn value(v: &str) -> (Term, String) {
     match v {
         "int" => (Term::Integer(5), "5".to_string()),
         "string" => (Term::Str("abc".to_string()), "\"abc\"".to_string()),
